@@ -4,9 +4,9 @@ package checks
 
 const overlayActive = false
 
-func setMapPerm(f func(n int, site string) []int)                {}
-func setFieldHook(f func(addr uintptr, kind int, site string))  {}
-func setSyncHook(f func(kind int, addr uintptr) int)             {}
+func setMapPerm(f func(n int, site string) []int)              {}
+func setFieldHook(f func(addr uintptr, kind int, site string)) {}
+func setSyncHook(f func(kind int, addr uintptr) int)           {}
 
 const (
 	evLock = iota
